@@ -39,19 +39,28 @@ def plan(tier, seed):
     return C.plan_counts(tier, 16 * 12000, 16 * 100000)
 
 
-def any_type(anytag):
+def any_type(anytag, num=1002):
     a = univ.Any()
     if anytag == 'implicit':
-        a = a.subtype(implicitTag=tag.Tag(tag.tagClassPrivate, tag.tagFormatSimple, 1002))
+        a = a.subtype(implicitTag=tag.Tag(tag.tagClassPrivate, tag.tagFormatSimple, num))
     elif anytag == 'explicit':
-        a = a.subtype(explicitTag=tag.Tag(tag.tagClassPrivate, tag.tagFormatConstructed, 1002))
+        a = a.subtype(explicitTag=tag.Tag(tag.tagClassPrivate, tag.tagFormatConstructed, num))
     return a
 
 
-def make_schema(container, govkind, shape, anytag, tmap):
-    """tmap: list of (governing python value, inner T)."""
+DEFAULT_LAYOUT = ('first', 'mandatory', None)
+ORDERS = ('first', 'last', 'mid')
+GOVDECLS = ('mandatory', 'default-omitted', 'default-unset', 'default-other')
+
+
+def make_schema(container, govkind, shape, anytag, tmap, layout=DEFAULT_LAYOUT, gov_default=None):
+    """tmap: list of (governing python value, inner T).
+    layout = (order, govdecl, twin): where the governing field sits relative to the open-type field (before it, after
+    it, after it with the OPTIONAL tail in front), how it is declared (mandatory, or DEFAULT with the value given in
+    gov_default), and whether the container holds a second governing/open-type pair (gov2/blob2, same map)."""
+    order, govdecl, twin = layout
     gov = univ.Integer() if govkind == 'int' else univ.ObjectIdentifier()
-    ot = opentype.OpenType('gov', dict((g, B.schema(t)) for g, t in tmap))
+    types = dict((g, B.schema(t)) for g, t in tmap)
     a = any_type(anytag)
     if shape == 'seqof':
         field = univ.SequenceOf(componentType=a)
@@ -60,11 +69,20 @@ def make_schema(container, govkind, shape, anytag, tmap):
     else:
         field = a
     cls = univ.Sequence if container == 'seq' else univ.Set
-    return cls(componentType=namedtype.NamedTypes(
-        namedtype.NamedType('gov', gov.subtype(implicitTag=tag.Tag(tag.tagClassPrivate, tag.tagFormatSimple, 1000))),
-        namedtype.NamedType('blob', field, openType=ot),
-        namedtype.OptionalNamedType('tail', univ.Boolean().subtype(
-            implicitTag=tag.Tag(tag.tagClassPrivate, tag.tagFormatSimple, 1001)))))
+    govT = gov.subtype(implicitTag=tag.Tag(tag.tagClassPrivate, tag.tagFormatSimple, 1000))
+    if govdecl == 'mandatory':
+        g_nt = namedtype.NamedType('gov', govT)
+    else:
+        g_nt = namedtype.DefaultedNamedType('gov', govT.clone(gov_default))
+    b_nt = namedtype.NamedType('blob', field, openType=opentype.OpenType('gov', types))
+    t_nt = namedtype.OptionalNamedType('tail', univ.Boolean().subtype(
+        implicitTag=tag.Tag(tag.tagClassPrivate, tag.tagFormatSimple, 1001)))
+    nts = {'first': [g_nt, b_nt, t_nt], 'last': [b_nt, t_nt, g_nt], 'mid': [t_nt, b_nt, g_nt]}[order]
+    if twin is not None:
+        g2 = namedtype.NamedType('gov2', gov.subtype(implicitTag=tag.Tag(tag.tagClassPrivate, tag.tagFormatSimple, 1003)))
+        b2 = namedtype.NamedType('blob2', any_type(anytag, 1004), openType=opentype.OpenType('gov2', types))
+        nts = (nts + [g2, b2]) if twin == 'after' else ([b2, g2] + nts) if twin == 'before' else (nts[:1] + [g2, b2] + nts[1:])
+    return cls(componentType=namedtype.NamedTypes(*nts))
 
 
 def gov_value(govkind, i):
@@ -86,7 +104,7 @@ def blob_region(e, container, shape, anytag):
     """Locate the octets of the ANY field(s) in encoding e with the independent parser:
     -> list of byte strings (the complete inner TLVs)."""
     top = R.parse_one(e, 0)
-    kids = [c for c in top.children if not (c.cls == 'P' and c.num in (1000, 1001))]
+    kids = [c for c in top.children if not (c.cls == 'P' and c.num in (1000, 1001, 1003, 1004))]
     if shape != 'single':
         if len(kids) != 1:
             raise R.RefError('container field not found')
@@ -130,25 +148,96 @@ def run_case(res, rng, tier):
         res.see('skipped:inner-in-finding-zone')
         return
     resolution = rng.choice(['default-map', 'override-map', 'off', 'unmapped'])
-    case = ('c18', container, govkind, shape, anytag, tuple(tmap), which, tuple(map(repr, inner_vals)), cname, resolution)
+    # layout of the container: half of the cases use the plain one (governing field first and mandatory)
+    layout = DEFAULT_LAYOUT
+    twin_case = None
+    if rng.random() < 0.5:
+        order = rng.choice(ORDERS)
+        if anytag == 'untagged' and container == 'seq' and order != 'first':
+            order = 'first'        # an untagged ANY directly followed by OPTIONAL/other fields is ambiguous
+        govdecl = rng.choice(GOVDECLS)
+        twin = None
+        # a second open-type field only in a SEQUENCE: the library gives every ANY, tagged or not, a wildcard entry in
+        # its tag map, so a SET with two of them is refused as ambiguous (universe rule: one ANY per SET)
+        if container == 'seq' and anytag != 'untagged' and shape == 'single' and rng.random() < 0.5:
+            twin = rng.choice(['after', 'before', 'between'])
+            which2 = rng.randrange(len(tmap))
+            for _try in range(20):
+                v2 = U.gen_value(rng, tmap[which2][1], o, small=True)
+                if inner_ok(tmap[which2][1], v2, codec, defMode):
+                    twin_case = (which2, repr(v2))
+                    break
+            else:
+                twin = None
+        layout = (order, govdecl, twin)
+    case = ('c18', container, govkind, shape, anytag, tuple(tmap), which, tuple(map(repr, inner_vals)), cname, resolution,
+            layout, twin_case)
     feats = U.type_features(Tin, inner_vals[0] if inner_vals else None) | {
         'codec:' + cname, 'anytag:' + anytag, 'shape:' + shape, 'resolution:' + resolution, 'container:' + container,
         'gov:' + govkind}
     check(res, case, feats, inner_vals)
 
 
+def field_ok(res, feats, case, label, items, Tin, inner_vals, regions, shape, resolved):
+    """One open-type field of the decoded container against its oracle; True when it agrees."""
+    if len(items) != len(inner_vals):
+        res.witness('element-count-differs', feats, case, '%s: %d vs %d' % (label, len(items), len(inner_vals)))
+        return False
+    if resolved:
+        want_cls = type(B.schema(Tin))
+        got = []
+        for it in items:
+            if not isinstance(it, want_cls) or isinstance(it, univ.Any) and want_cls is not univ.Any:
+                res.witness('resolved-field-has-wrong-class', feats, case, '%s: %s instead of %s' % (label, type(it).__name__, want_cls.__name__))
+                return False
+            try:
+                got.append(U.canon(Tin, B.absval(it, Tin)))
+            except B.NotAValue as ex:
+                res.witness('resolved-field-not-a-value', feats, case, '%s: %s' % (label, ex))
+                return False
+        want = [U.canon(Tin, v) for v in inner_vals]
+        if (sorted(map(repr, got)) != sorted(map(repr, want))) if shape == 'setof' else (got != want):
+            res.witness('resolved-value-differs', feats, case, '%s: %r vs %r' % (label, got, want))
+            return False
+        res.see('resolved-ok')
+    else:
+        got = []
+        for it in items:
+            if not isinstance(it, univ.Any):
+                res.witness('unresolved-field-is-not-any', feats, case, '%s: %s' % (label, type(it).__name__))
+                return False
+            got.append(it.asOctets())
+        if (sorted(got) != sorted(regions)) if shape == 'setof' else (got != regions):
+            res.witness('unresolved-octets-differ', feats, case, '%s: field %r wire %r' % (label, [x.hex()[:80] for x in got], [x.hex()[:80] for x in regions]))
+            return False
+        res.see('unresolved-ok')
+    return True
+
+
 def check(res, case, feats, inner_vals):
-    _, container, govkind, shape, anytag, tmap, which, _reprs, cname, resolution = case
+    import ast
+    _, container, govkind, shape, anytag, tmap, which, _reprs, cname, resolution = case[:10]
+    layout = tuple(case[10]) if len(case) > 10 else DEFAULT_LAYOUT
+    twin_case = case[11] if len(case) > 11 else None
+    order, govdecl, twin = layout
     enc, ekw, dec, codec, defMode = CODECS[cname]
     g, Tin = tmap[which]
+    if twin is not None:
+        which2, v2 = twin_case[0], ast.literal_eval(twin_case[1])
+        g2, Tin2 = tmap[which2]
+    # the DEFAULT of the governing field: the governing value itself (then the encoders leave the field out), or the
+    # governing value of another entry of the map (then it is on the wire)
+    gov_default = g if govdecl in ('default-omitted', 'default-unset') else tmap[(which + 1) % len(tmap)][0]
     res.case(U.case_hash(case), U.base_of(Tin)[0] not in U.SIMPLE or Tin[0] == 'tag')
     res.see('cases:%s:%s:%s:%s' % (cname, anytag, shape, resolution))
+    res.see('layout:%s:%s:%s' % (order, govdecl, 'twin-' + twin if twin else 'single-pair'))
     res.see('inner-kind:' + U.base_of(Tin)[0])
-    schema = make_schema(container, govkind, shape, anytag, tmap)
+    schema = make_schema(container, govkind, shape, anytag, tmap, layout, gov_default)
     # ---- build and encode
     try:
         val = schema.clone()
-        val['gov'] = g
+        if govdecl != 'default-unset':
+            val['gov'] = g
         inner_objs = [B.value(Tin, v) for v in inner_vals]
         if shape == 'single':
             val['blob'] = inner_objs[0]
@@ -156,6 +245,9 @@ def check(res, case, feats, inner_vals):
             val['blob'].clear()
             for io in inner_objs:
                 val['blob'].append(io)
+        if twin is not None:
+            val['gov2'] = g2
+            val['blob2'] = B.value(Tin2, v2)
         if res.evaluations % 2:
             val['tail'] = True
     except Exception as ex:
@@ -171,11 +263,19 @@ def check(res, case, feats, inner_vals):
     # what the field must hold without resolution: the complete inner TLVs as they sit in the encoding
     try:
         regions = blob_region(e, container, shape, anytag)
+        top = R.parse_one(e, 0)
+        gov_on_wire = any(c.tag() == ('P', 1000) for c in top.children)
+        regions2 = [e[c.content_off:c.content_end] for c in top.children if c.tag() == ('P', 1004)]
     except (R.RefError, IndexError, AttributeError) as ex:
         res.witness('encoding-not-parseable-by-reference', feats, case, '%s in %s' % (ex, e.hex()[:300]))
         return
+    # a DEFAULT governing field equal to its default is not encoded (DER/CER must, BER does)
+    if gov_on_wire != (govdecl in ('mandatory', 'default-other')):
+        res.witness('governing-field-presence-on-the-wire', feats, case, '%s: %s' % (govdecl, e.hex()[:300]))
+        return
+    res.see('governing-on-wire' if gov_on_wire else 'governing-omitted-as-default')
     # each region must itself be an encoding of an inner value (SET OF: in any order)
-    if len(regions) != len(inner_vals):
+    if len(regions) != len(inner_vals) or len(regions2) != (1 if twin else 0):
         res.witness('wrong-number-of-any-elements-on-the-wire', feats, case, e.hex()[:300])
         return
     read_back = []
@@ -192,22 +292,29 @@ def check(res, case, feats, inner_vals):
     if (sorted(map(repr, read_back)) != sorted(map(repr, want_vals))) if shape == 'setof' else (read_back != want_vals):
         res.witness('wrapped-octets-are-not-the-inner-encoding', feats, case, 'values %r in %s' % (read_back, e.hex()[:300]))
         return
+    if twin:
+        try:
+            rv, rest = R.read(Tin2, regions2[0], 'BER')
+            if rest or U.canon(Tin2, rv) != U.canon(Tin2, v2):
+                raise R.RefError('value %r' % (rv,))
+        except (R.RefError, IndexError) as ex:
+            res.witness('wrapped-octets-are-not-the-inner-encoding', feats, case, 'second field: %s in %s' % (ex, e.hex()[:300]))
+            return
     # ---- decode
     kw = {}
-    gov_for_decode = g
     if resolution == 'default-map':
         kw['decodeOpenTypes'] = True
     elif resolution == 'override-map':
         # the schema's own map points to a wrong type; the caller's map overrides it
         wrong = [(gg, tmap[(i + 1) % len(tmap)][1]) for i, (gg, t) in enumerate(tmap)]
-        schema = make_schema(container, govkind, shape, anytag, wrong)
+        schema = make_schema(container, govkind, shape, anytag, wrong, layout, gov_default)
         kw['openTypes'] = dict((gg, B.schema(t)) for gg, t in tmap)
         if govkind == 'oid':
             kw['openTypes'] = dict((univ.ObjectIdentifier(gg), s) for gg, s in kw['openTypes'].items())
     elif resolution == 'unmapped':
         kw['decodeOpenTypes'] = True
         others = [(gg, t) for i, (gg, t) in enumerate(tmap) if i != which]
-        schema = make_schema(container, govkind, shape, anytag, others)
+        schema = make_schema(container, govkind, shape, anytag, others, layout, gov_default)
     try:
         d, rest = dec(e, asn1Spec=schema, **kw)
     except Exception as ex:
@@ -221,46 +328,26 @@ def check(res, case, feats, inner_vals):
     try:
         blob = d['blob']
         items = [blob] if shape == 'single' else [blob[i] for i in range(len(blob))]
-        if shape == 'setof' and codec in ('CER', 'DER'):
-            pass
+        items2 = [d['blob2']] if twin else []
+        gov_back = d['gov']
+        gov_back = int(gov_back) if govkind == 'int' else tuple(gov_back)
     except Exception as ex:
         res.witness('field-unreadable', feats, case, ex)
         return
-    if len(items) != len(inner_vals):
-        res.witness('element-count-differs', feats, case, '%d vs %d' % (len(items), len(inner_vals)))
+    if gov_back != g:
+        res.witness('governing-value-differs', feats, case, '%r vs %r' % (gov_back, g))
         return
     resolved = resolution in ('default-map', 'override-map')
-    if resolved:
-        want_cls = type(B.schema(Tin))
-        got = []
-        for it in items:
-            if not isinstance(it, want_cls) or isinstance(it, univ.Any) and want_cls is not univ.Any:
-                res.witness('resolved-field-has-wrong-class', feats, case, '%s instead of %s' % (type(it).__name__, want_cls.__name__))
-                return
-            try:
-                got.append(U.canon(Tin, B.absval(it, Tin)))
-            except B.NotAValue as ex:
-                res.witness('resolved-field-not-a-value', feats, case, ex)
-                return
-        want = [U.canon(Tin, v) for v in inner_vals]
-        if (sorted(map(repr, got)) != sorted(map(repr, want))) if shape == 'setof' else (got != want):
-            res.witness('resolved-value-differs', feats, case, '%r vs %r' % (got, want))
+    if not field_ok(res, feats, case, 'blob', items, Tin, inner_vals, regions, shape, resolved):
+        return
+    if twin:
+        resolved2 = resolved or (resolution == 'unmapped' and which2 != which)
+        if not field_ok(res, feats, case, 'blob2', items2, Tin2, [v2], regions2, 'single', resolved2):
             return
-        res.see('resolved-ok')
-    else:
-        got = []
-        for it in items:
-            if not isinstance(it, univ.Any):
-                res.witness('unresolved-field-is-not-any', feats, case, type(it).__name__)
-                return
-            got.append(it.asOctets())
-        if (sorted(got) != sorted(regions)) if shape == 'setof' else (got != regions):
-            res.witness('unresolved-octets-differ', feats, case, 'field %r wire %r' % ([x.hex()[:80] for x in got], [x.hex()[:80] for x in regions]))
-            return
-        res.see('unresolved-ok')
     if len(res.samples) < 4:
         res.sample({'container': container, 'governing': govkind, 'shape': shape, 'anytag': anytag, 'codec': cname,
-                    'resolution': resolution, 'inner_type': U.show_type(Tin)[:200], 'encoding': e.hex()[:160]})
+                    'resolution': resolution, 'layout': list(layout), 'inner_type': U.show_type(Tin)[:200],
+                    'encoding': e.hex()[:160]})
 
 
 def run_shard(shard, tier, seed):
@@ -285,7 +372,7 @@ def replay(case):
     res = H.Result(ID)
     import ast
     inner_vals = [ast.literal_eval(r) for r in case[7]]
-    _, container, govkind, shape, anytag, tmap, which, _r, cname, resolution = case
+    _, container, govkind, shape, anytag, tmap, which, _r, cname, resolution = case[:10]
     Tin = tmap[which][1]
     feats = U.type_features(Tin, inner_vals[0] if inner_vals else None) | {
         'codec:' + cname, 'anytag:' + anytag, 'shape:' + shape, 'resolution:' + resolution, 'container:' + container,
